@@ -412,14 +412,26 @@ QByteArray QXmppDiscoveryIq::verificationString() const
             for (const auto &key : keys) {
                 const QXmppDataForm::Field field = fieldMap.value(key);
                 S += key + u'<';
-                if (field.value().canConvert<QStringList>()) {
-                    QStringList list = field.value().toStringList();
-                    list.sort();
-                    S += list.join(u'<');
-                } else {
-                    S += field.value().toString();
+                // the values as QXmppDataForm::toXml() writes them, sorted, each followed by '<' (XEP-0115 5.1, step 7)
+                QStringList values;
+                switch (field.type()) {
+                case QXmppDataForm::Field::BooleanField:
+                    values << (field.value().toBool() ? u"1"_s : u"0"_s);
+                    break;
+                case QXmppDataForm::Field::ListMultiField:
+                case QXmppDataForm::Field::JidMultiField:
+                case QXmppDataForm::Field::TextMultiField:
+                    values = field.value().toStringList();
+                    break;
+                default:
+                    if (const auto value = field.value().toString(); !value.isEmpty()) {
+                        values << value;
+                    }
                 }
-                S += u'<';
+                if (!values.isEmpty()) {
+                    values.sort();
+                    S += values.join(u'<') + u'<';
+                }
             }
         } else {
             qWarning("QXmppDiscoveryIq form does not contain FORM_TYPE");
